@@ -86,7 +86,10 @@ impl Transaction {
 
     /// Start a transaction in the storage layer.
     pub fn begin_transaction(&self) -> bool {
-        !self.active.swap(true, Ordering::Relaxed)
+        let started = !self.active.swap(true, Ordering::Relaxed);
+        #[cfg(facebook_akd_verif)]
+        crate::verif_hooks::trace_event("txn:begin", started, &[]);
+        started
     }
 
     /// Commit a transaction in the storage layer.
@@ -99,6 +102,8 @@ impl Transaction {
     /// Release the transaction flag after a call to [Transaction::drain_transaction].
     pub fn end_transaction(&self) {
         self.active.store(false, Ordering::Relaxed);
+        #[cfg(facebook_akd_verif)]
+        crate::verif_hooks::trace_event("txn:end", true, &[]);
     }
 
     /// Retrieve the records of the transaction (sorted by commit priority) and empty the
@@ -125,12 +130,16 @@ impl Transaction {
         // flush the trans log
         self.mods.clear();
 
+        #[cfg(facebook_akd_verif)]
+        crate::verif_hooks::trace_event("txn:drain", true, &records);
         Ok(records)
     }
 
     /// Rollback a transaction.
     pub fn rollback_transaction(&self) -> Result<(), StorageError> {
         if !self.active.load(Ordering::Relaxed) {
+            #[cfg(facebook_akd_verif)]
+            crate::verif_hooks::trace_event("txn:rollback", false, &[]);
             return Err(StorageError::Transaction(
                 "Transaction not currently active".to_string(),
             ));
@@ -140,6 +149,8 @@ impl Transaction {
         self.mods.clear();
 
         self.active.store(false, Ordering::Relaxed);
+        #[cfg(facebook_akd_verif)]
+        crate::verif_hooks::trace_event("txn:rollback", true, &[]);
         Ok(())
     }
 
@@ -166,6 +177,8 @@ impl Transaction {
             self.mods
                 .insert(record.get_full_binary_id(), record.clone());
         }
+        #[cfg(facebook_akd_verif)]
+        crate::verif_hooks::trace_event("txn:set", true, records);
 
         #[cfg(feature = "runtime_metrics")]
         {
@@ -178,6 +191,8 @@ impl Transaction {
         let bin_id = record.get_full_binary_id();
 
         self.mods.insert(bin_id, record.clone());
+        #[cfg(facebook_akd_verif)]
+        crate::verif_hooks::trace_event("txn:set", true, slice::from_ref(record));
 
         #[cfg(feature = "runtime_metrics")]
         {
